@@ -86,39 +86,55 @@ static const struct rshell_command R_T1[] = {{"a", r_a, nullptr}, {nullptr, null
 static const struct rshell_command R_T2[] = {{"ab", r_ab, nullptr}, {nullptr, nullptr, nullptr}};
 static const struct rshell_command_table R_TABLES[] = {{R_T1, 0}, {R_T2, 0}, {nullptr, 0}};
 
-// exactly sized private copy (plain malloc: no shared pool)
+// exactly sized private copy (plain malloc: no shared pool) -- or, for CONST inputs in the shared variant, ONE copy
+// that both threads read: a routine that writes into its const input (even if it restores it) then races
 struct Priv
 {
     char *p;
     size_t n;
-    Priv(const Str &s, bool terminated) : n(s.size())
+    bool owned = true;
+    Priv(const Str &s, bool terminated, char *shared = nullptr) : n(s.size())
     {
+        if (shared)
+        {
+            p = shared;
+            owned = false;
+            return;
+        }
         p = (char *)malloc(n + (terminated ? 1 : 0) + ((n == 0 && !terminated) ? 1 : 0));
         if (n)
             memcpy(p, s.data(), n);
         if (terminated)
             p[n] = 0;
     }
-    ~Priv() { free(p); }
+    ~Priv()
+    {
+        if (owned)
+            free(p);
+    }
 };
+static const char *TEXT[4] = {"a b", " ab  b ", "\"a b\" a", "ab"};
+static const char *PATHS[4] = {"/a/b", "a/./b", "//", "ab/a"};
+static char *g_text[4], *g_path[4]; // the shared const inputs (text: not terminated; paths: terminated)
+static thread_local bool t_shared = false;
+static char *sh_text(int v) { return t_shared ? g_text[v & 3] : nullptr; }
+static char *sh_path(int v) { return t_shared ? g_path[v & 3] : nullptr; }
 
 // one call of routine r on input number v (0..3); returns "" or what was wrong.  No mc:: calls in here.
 static Str run_routine(int r, int v)
 {
-    static const char *TEXT[4] = {"a b", " ab  b ", "\"a b\" a", "ab"};
-    static const char *PATHS[4] = {"/a/b", "a/./b", "//", "ab/a"};
     Str s = TEXT[v & 3], path = PATHS[v & 3];
     auto is_sp = [](char c) { return c == ' '; };
     switch (r)
     {
     case R_SPLIT_CHAR:
     {
-        Priv b(s, false);
+        Priv b(s, false, sh_text(v));
         return igris::split(igris::buffer((const void *)b.p, b.n), ' ') == ref_split(s, is_sp) ? "" : "wrong tokens";
     }
     case R_SPLIT_DELIMS:
     {
-        Priv b(s, false), d(" \"", true);
+        Priv b(s, false, sh_text(v)), d(" \"", true);
         return igris::split(igris::buffer((const void *)b.p, b.n), (const char *)d.p) ==
                        ref_split(s, [](char c) { return c == ' ' || c == '"'; })
                    ? ""
@@ -136,12 +152,12 @@ static Str run_routine(int r, int v)
     }
     case R_TRIM:
     {
-        Priv b(s, false);
+        Priv b(s, false, sh_text(v));
         return w_trim(b.p, b.n) == ref_trim(s) ? "" : "wrong trim";
     }
     case R_CMDARGS:
     {
-        Priv b(s, false);
+        Priv b(s, false, sh_text(v));
         return igris::split_cmdargs(igris::buffer((const void *)b.p, b.n)) == ref_cmdargs(s) ? "" : "wrong tokens";
     }
     case R_REPLACE:
@@ -155,7 +171,7 @@ static Str run_routine(int r, int v)
     }
     case R_MEMMEM:
     {
-        Priv h(s, false);
+        Priv h(s, false, sh_text(v));
         char *g = (char *)igris_memmem(h.p, h.n, "b", 1);
         return (g ? (long)(g - h.p) : -1) == ref_memmem(s, "b") ? "" : "wrong position";
     }
@@ -200,7 +216,7 @@ static Str run_routine(int r, int v)
     }
     case R_PATH_NEXT:
     {
-        Priv b(path, true);
+        Priv b(path, true, sh_path(v));
         unsigned len = 0;
         const char *g = w_path_next(b.p, &len);
         size_t i = 0; // first node: skip '/' and "." components
@@ -213,7 +229,7 @@ static Str run_routine(int r, int v)
     }
     case R_PATH_ITERATE:
     {
-        Priv b(path, true);
+        Priv b(path, true, sh_path(v));
         const char *g = w_path_iterate(b.p);
         size_t q = 0;
         if (path[0] != '/')
@@ -225,7 +241,7 @@ static Str run_routine(int r, int v)
     case R_PATH_COMPARE:
     {
         Str o = PATHS[(v + 1) & 3];
-        Priv a(path, true), b(o, true);
+        Priv a(path, true, sh_path(v)), b(o, true, sh_path(v + 1));
         Str x = path.substr(0, std::min(path.find('/'), path.size())), y = o.substr(0, std::min(o.find('/'), o.size()));
         int want = x < y ? -1 : x > y ? 1 : 0;
         return w_path_compare_node(a.p, b.p) == want ? "" : "wrong order";
@@ -234,7 +250,7 @@ static Str run_routine(int r, int v)
     {
         static const char *PFX[4] = {"/a", "a", "/", "ab"};
         static const long WANT[4] = {3, 4, 2, 3}; // "/a/b"-"/a" -> "b"; "a/./b"-"a" -> "b"; "//"-"/" -> ""; "ab/a"-"ab" -> "a"
-        Priv a(path, true), b(PFX[v & 3], true);
+        Priv a(path, true, sh_path(v)), b(PFX[v & 3], true);
         const char *g = w_path_remove_prefix(a.p, b.p);
         return (g && g - a.p == WANT[v & 3]) ? "" : "wrong remainder";
     }
@@ -257,10 +273,12 @@ static Str run_routine(int r, int v)
 struct Side
 {
     int routine, v[2];
+    bool shared = false;
     Str err[2];
     std::atomic<int> done{0};
     void body()
     {
+        t_shared = shared;
         err[0] = run_routine(routine, v[0]);
         sched::yield(); // the other thread may run a whole call between ours
         err[1] = run_routine(routine, v[1]);
@@ -282,19 +300,29 @@ MC_INIT
                 if (mc::thorough() || a == b || shell || repl)
                     pairs.push_back({a, b});
             }
-        int first = mc::choose((int)pairs.size() * 2);
+        int first = mc::choose((int)pairs.size() * 4);
         mc::request_restart(); // lazily built / remembered state survives in the process: fresh worker per case
-        int ra = pairs[first / 2].first, rb = pairs[first / 2].second, var = first % 2;
+        int ra = pairs[first / 4].first, rb = pairs[first / 4].second, var = first % 2;
+        bool shared = (first / 2) % 2; // both threads read the SAME const inputs (same input numbers)
+        if (!g_text[0])
+            for (int i = 0; i < 4; i++)
+            {
+                size_t n = strlen(TEXT[i]);
+                g_text[i] = (char *)malloc(n);
+                memcpy(g_text[i], TEXT[i], n);
+                g_path[i] = strdup(PATHS[i]);
+            }
         Side *S[2] = {new Side, new Side}; // deliberately leaked if the execution does not finish
         S[0]->routine = ra;
         S[1]->routine = rb;
         S[0]->v[0] = var ? 2 : 0;
         S[0]->v[1] = var ? 3 : 1;
-        S[1]->v[0] = var ? 1 : 3;
-        S[1]->v[1] = var ? 0 : 2;
-        Str who = mc::fmt("thread A: %s x2 (inputs %d,%d), thread B: %s x2 (inputs %d,%d)", rname[ra], S[0]->v[0], S[0]->v[1],
-                          rname[rb], S[1]->v[0], S[1]->v[1]);
-        mc::crash_context("C19.reentrancy.%s+%s.shared_state", rname[ra], rname[rb]);
+        S[1]->v[0] = shared ? S[0]->v[0] : var ? 1 : 3;
+        S[1]->v[1] = shared ? S[0]->v[1] : var ? 0 : 2;
+        S[0]->shared = S[1]->shared = shared;
+        Str who = mc::fmt("thread A: %s x2 (inputs %d,%d), thread B: %s x2 (inputs %d,%d)%s", rname[ra], S[0]->v[0], S[0]->v[1],
+                          rname[rb], S[1]->v[0], S[1]->v[1], shared ? ", const inputs shared" : "");
+        mc::crash_context("C19.reentrancy.%s+%s.%s", rname[ra], rname[rb], shared ? "shared_const_input" : "shared_state");
         mc::describe("%s (the execution died before it completed)", who.c_str());
         sched::Options o;
         o.preemption_bound = 2;
